@@ -365,6 +365,11 @@ func init() {
 			}
 		}
 		inputs = append(inputs, ioInvalid...)
+		if c.Replay != "" {
+			if in, ok := ioReplayInput(c.Replay); ok {
+				inputs = append([]ioInput{in}, inputs...)
+			}
+		}
 		for _, k := range h.Known("C14") {
 			if k.Status == "fixed" {
 				inputs = append(inputs, ioInput{k.ReplayStr("mediatype"), ioPkgOf(k.ReplayStr("mediatype")), "fixed:" + k.ID, []byte(k.ReplayStr("input"))})
